@@ -137,13 +137,18 @@ func c12NodeClass(n, i int) string {
 type c12run struct {
 	r         *vlib.Run
 	replaying bool
+	rid       string
 }
 
 func (c *c12run) want(idf func() string) bool {
 	if !c.replaying {
 		return true
 	}
-	return c.r.Want(idf())
+	id := idf()
+	if c.rid == id+"/forged" { // the forged-membership verdict is a second oracle of the same case
+		return c.r.Want(c.rid)
+	}
+	return c.r.Want(id)
 }
 
 type c12item struct {
@@ -156,7 +161,7 @@ func TestVerifC12(t *testing.T) {
 	r := vlib.Start("C12")
 	defer r.Finish()
 	c := &c12run{r: r}
-	_, c.replaying = r.Replaying()
+	c.rid, c.replaying = r.Replaying()
 
 	r.Rule("inputs: index helpers for every index below the bound; trees of every listed size built by the real Writer from fixed-seed keys; every member key's proof; " +
 		"single-field mutations {key,hash} x {flip bit0 of every byte, take the value of every other node, swap with sibling} (+ whole-node sibling swap, drop-last, append) on every tree node and on every position of every proof for the small sizes. " +
